@@ -25,9 +25,9 @@ import (
 	sim "xsim/wire"
 )
 
-const (
-	verif = "/verif"
-	repo  = "/repo"
+var (
+	verif = envOr("XSIM_VERIF", "/verif")
+	repo  = envOr("XSIM_REPO", "/repo")
 )
 
 var goEnv = []string{"GOFLAGS=-mod=mod", "GOPROXY=off", "GOSUMDB=off", "GOTOOLCHAIN=local", "PATH=/opt/veriftools/go1.26.8/bin:" + os.Getenv("PATH")}
